@@ -152,6 +152,9 @@ func FlowerSnark(n int) *DenseGraph {
 	if n&1 == 0 {
 		panic("n must be odd")
 	}
+	if n < 3 {
+		panic("n must be at least 3")
+	}
 	N := 4 * n
 	edges := make([]byte, (N*(N-1))/2)
 	for i := 0; i < n; i++ {
